@@ -23,11 +23,12 @@ import (
 
 // TransSpec says what to translate.
 type TransSpec struct {
-	Dir       string   // package directory below the repository root
-	Structs   []string // struct types that become Records
-	Funcs     []string // "Recv.Name" or "Name"; callees inside the package are pulled in automatically
-	Extern    []string // [seq] functions translated by another area (its Gen file is imported by the caller's header): analysed, not emitted
-	TimedTail []string // [seq] functions whose body is translated up to the first statement using package time (trans_seq.go)
+	Dir       string                   // package directory below the repository root
+	Structs   []string                 // struct types that become Records
+	Funcs     []string                 // "Recv.Name" or "Name"; callees inside the package are pulled in automatically
+	Extern    []string                 // [seq] functions translated by another area (its Gen file is imported by the caller's header): analysed, not emitted
+	Expect    map[string][]ExpectField // [stable] struct -> its pristine fields (name, Go type) in order: stable Record names (trans_stable.go)
+	TimedTail []string                 // [seq] functions whose body is translated up to the first statement using package time (trans_seq.go)
 	// [ext:T20] (gen/trans_ext20.go) -------------------------------------------------------------------------------
 	Globals    []string // package-level variables treated as explicit state: read -> extra parameter, written -> extra result
 	WrapSigned bool     // int8/16/32/64 wrap around (swrap N) instead of being unbounded; `int` stays unbounded
@@ -90,10 +91,11 @@ func (g gtype) zero() string {
 }
 
 type structInfo struct {
-	name   string
-	obj    *types.TypeName
-	fields []string
-	ftypes []gtype
+	name    string
+	obj     *types.TypeName
+	fields  []string
+	ftypes  []gtype
+	goNames []string // [stable] the Go name of each field (fields: the emitted names), same order
 }
 
 type funcInfo struct {
@@ -331,6 +333,21 @@ func Translate(repo string, spec TransSpec) (out string, err error) {
 			}
 			si.fields = append(si.fields, f.Name())
 			si.ftypes = append(si.ftypes, ft)
+			si.goNames = append(si.goNames, f.Name())
+		}
+		{ // [stable] emit the expected names in the expected order when only names / order changed
+			var tys []string
+			for i := 0; i < st.NumFields(); i++ {
+				tys = append(tys, fieldTypeString(st.Field(i).Type()))
+			}
+			if order, names, ok := stableFields(si.goNames, tys, spec.Expect[sn]); ok {
+				var gn []string
+				var ft []gtype
+				for _, j := range order {
+					gn, ft = append(gn, si.goNames[j]), append(ft, si.ftypes[j])
+				}
+				si.fields, si.goNames, si.ftypes = names, gn, ft
+			}
 		}
 		t.global[sn], t.global["mk"+sn], t.global["zero_"+sn] = true, true, true
 		for _, f := range si.fields {
@@ -363,7 +380,7 @@ func Translate(repo string, spec TransSpec) (out string, err error) {
 
 func (si *structInfo) emit() string {
 	var b strings.Builder
-	fmt.Fprintf(&b, "\n(* type %s struct *)\nRecord %s : Type := mk%s {", si.name, si.name, si.name)
+	fmt.Fprintf(&b, "\n(* type %s struct%s *)\nRecord %s : Type := mk%s {", si.name, si.renameNote(), si.name, si.name)
 	for i, f := range si.fields {
 		if i > 0 {
 			b.WriteString(";")
